@@ -349,7 +349,7 @@ def balanced(text):
     return depth == 0 and q is None
 
 
-def pick_piece(rng, line, token=False):
+def pick_piece(rng, line, token=False, backslash_ok=False):
     """a piece of the operand field of `line`: (start, end, text) relative to the line, or None.
     token=True: the piece must be a token of the lexer by itself (a define name is looked up per
     token, so `$name`, `name:`, `a.name` and `name'` do not use the define)."""
@@ -369,7 +369,7 @@ def pick_piece(rng, line, token=False):
         if not balanced(text):
             continue
         if token:
-            if "\\" in text:
+            if "\\" in text and not backslash_ok:
                 continue      # a backslash in a .define text is a line continuation (known finding define-backslash)
             before = line[s - 1] if s > 0 else " "
             after = line[e] if e < len(line) else " "
@@ -390,7 +390,8 @@ def equivalent_arg(rng, text):
 def wrap_chunk(rng, chunk, names, kind, incs):
     """returns (wrapped lines, expanded lines, tag) for one run of statements"""
     if kind in ("define", "hashdefine", "equ", "dotequ"):
-        picks = [(k, pick_piece(rng, l, token=True)) for k, l in enumerate(chunk)]
+        # (the value of `NAME equ VALUE` is copied raw: escapes inside its literals are not a line continuation)
+        picks = [(k, pick_piece(rng, l, token=True, backslash_ok=(kind == "equ"))) for k, l in enumerate(chunk)]
         picks = [(k, pp) for k, pp in picks if pp]
         if not picks:
             return chunk, chunk, "none"
@@ -511,6 +512,26 @@ def wrap_chunk(rng, chunk, names, kind, incs):
         wl[k] = chunk[k][:s] + call + chunk[k][e:]
         el[k] = chunk[k][:s] + "(%s+%s)" % (text, extra) + chunk[k][e:]
         return defs + wl, el, "callarg"
+    if kind == "equq":
+        # NAME equ VALUE ; comment  where VALUE holds escaped quotes / the other quote character, used with further
+        # operands behind the name: whatever of the comment stays in the stored text swallows them at the use site
+        text, nbytes = rng.choice(EQU_QUOTED)
+        name = names.fresh(rng.choice(["ZQ", "zq_", "_ZQ"]))
+        comment = rng.choice(EQU_COMMENTS) if rng.random() < 0.85 else ""
+        head = "%s equ %s%s" % (name, text, comment)
+        before = rng.choice([[], [], ["1"], ["0x10", "2"]])
+        after = rng.choice([["5", "6"], ["7"], ["0x21", "0x22", "0x23"], [name], [name, "9"]])
+        ops = before + [name] + after
+        n = len(before) + sum(nbytes if o == name else 1 for o in [name] + after)
+        if n % 2:
+            ops.append("0")                     # an even number of bytes: the statements behind stay aligned
+        use = "  .db " + ", ".join(ops)
+        lab = names.fresh("zlab")
+        k = rng.randrange(len(chunk) + 1)
+        pos = rng.randrange(k + 1)
+        wl = list(chunk[:k]) + [use, lab + ":"] + list(chunk[k:])
+        el = list(chunk[:k]) + [sub_words_str(use, [name], [text]), lab + ":"] + list(chunk[k:])
+        return wl[:pos] + [head] + wl[pos:], el, "equq:" + ("escaped" if "\\" in text else "plain") + ("+comment" if comment else "")
     if kind == "include":
         fn = names.fresh("zi") + ".inc"
         incs[fn] = "\n".join(chunk) + rng.choice(["\n", "\n", "\n\n"])
@@ -553,7 +574,13 @@ def split_top(text):
     return out
 
 
-KINDS = ["define", "hashdefine", "equ", "dotequ", "macro", "macro", "macro2", "nested", "definep", "callarg", "defmacro", "defmacro", "include", "none"]
+KINDS = ["define", "hashdefine", "equ", "dotequ", "macro", "macro", "macro2", "nested", "definep", "callarg", "defmacro", "defmacro", "include", "none",
+         "equq"]
+# (value text, bytes it assembles to): escaped quote characters, the other quote character inside a literal, escaped
+# backslashes, plain controls; no ; // tab inside the literals (known findings of their own)
+EQU_QUOTED = [("'\\''", 1), ('"5\\""', 2), ('"a\\"b"', 3), ('"\\""', 1), ('"q\\"r\\"s"', 5), ("'\"'", 1), ('"it\'s"', 4), ("'\\\\'", 1),
+              ('"\\\\"', 1), ('"x\\\\\\"y"', 4), ("'a'", 1), ('"ab"', 2), ("'\\n'", 1), ('"a\\tb"', 3)]
+EQU_COMMENTS = [" ; c", " // c", "   ; the quote character", " ;", "//x", " ; it's", ' ; say "hi"', " // 'q'", "\t; tab"]
 
 
 def wrapped_program(rng, lines):
